@@ -179,9 +179,9 @@ SEEDS.update({
            "the last frame of a block ends exactly 1..6 bytes before the block boundary AND payload/CRC damage hits that frame: open panics"),
  "C09-7": ("an EMPTY frame with a bad checksum is treated as the torn end of the log",
            "an entry beginning with exactly 7 bytes left in a block (empty First frame), damage on one of its 4 checksum bytes, at least one later entry"),
- "C10-5": ("filename_to_position uses parse::<u64>().expect(..) after the digit check",
+ "C10-6": ("filename_to_position uses parse::<u64>().expect(..) after the digit check",
            "a stray file named wal- + 20 digits whose value exceeds u64::MAX"),
- "C10-6": ("deserialize asserts that control entries (truncate / position / delete) carry no payload",
+ "C10-7": ("deserialize asserts that control entries (truncate / position / delete) carry no payload",
            "a control entry straddling a block boundary (cut inside its queue name) whose next block is replaced by an intact block starting with a Middle/Last frame"),
  "C12-6": ("record buffer cleared once per go_next call (same mechanism as C02-1)",
            "a crash after the First frame of a multi-block batch, restart, an entry of exactly the missing length, second restart: part of the crashed batch surfaces"),
